@@ -128,6 +128,78 @@ func TestMakeSeeds(t *testing.T) {
 		}
 		write(t, dir, "seed-regular.json", c)
 	}
+
+	// 5. regression (must pass): a history that starts from an exported reward state. A first chain
+	// (cycles of 10 blocks, reward interval 5) runs 33 blocks; validator 3 signs only up to height 8, so
+	// all it earned sits in the first two chunks and matured long before the export; validator 0
+	// withdraws 20 OLT at height 20. The reward state is exported with the node's own export and the
+	// second chain starts from a genesis carrying it one hour later: validator 3 stays absent and
+	// withdraws all it has at height 12, validator 1 withdraws at height 11 (after the two chunks that
+	// were not matured at the export have matured), a twin restarts after height 7.
+	{
+		p := baseParams("c13-carried")
+		p.RewardCycle, p.RewardEstSecs, p.RewardCloseWin = 10, 150, 600
+		p.RewardYearShares = []string{"70000000000000000000000000", "40000000000000000000000000"}
+		p.RewardInterval = 5
+		v := sim.BuildGenesis(p).U.Vals
+		first := &Case{Params: p, Profile: "hand:first-chain"}
+		abs := -1
+		var pre *sim.PreRewards
+		var last int64
+		h := run.Start(t, "C13")
+		out, _ := execute(h, first, func(w *hist.World, m *monitor, i int) (hist.Step, bool) {
+			if i >= 33 {
+				return hist.Step{}, false
+			}
+			spec := sim.BlockSpec{GapSecs: 15}
+			var txs []txgen.Tx
+			if i+1 > 8 {
+				abs, _ = w.C.Last.GetByAddress(v[3].Key.Addr.Bytes())
+				spec.Absent = []int{abs}
+			}
+			if i+1 == 20 {
+				txs = append(txs, txgen.WithdrawReward(v[0].Key.Addr, v[0].Stake.Addr, txgen.Amt("OLT", big.NewInt(20)), fee, "w0", v[0].Stake))
+				spec.Txs = append(spec.Txs, txs[0].Bytes)
+			}
+			return hist.BlockStep(spec, txs), true
+		}, func(w *hist.World, m *monitor) *outcome {
+			st, err := w.Primary().ExportRewards()
+			if err != nil {
+				t.Fatal(err)
+			}
+			if pre, err = sim.PreRewardsFromState(st, w.G.U); err != nil {
+				t.Fatal(err)
+			}
+			last = w.C.Time.Unix()
+			return nil
+		})
+		if out != nil || pre == nil || abs < 0 {
+			t.Fatalf("first chain of the carried-state seed: %+v", out)
+		}
+		p2 := p
+		p2.PreRewards = pre
+		p2.GenesisUnix = last + 3600
+		c := &Case{Params: p2, Profile: "hand:carried-reward-state", RestartAt: 7}
+		for hh := 1; hh <= 24; hh++ {
+			spec := sim.BlockSpec{GapSecs: 15, Absent: []int{abs}}
+			var txs []txgen.Tx
+			switch hh {
+			case 3:
+				// what matured before the export can be withdrawn right away
+				txs = append(txs, txgen.WithdrawReward(v[2].Key.Addr, v[2].Stake.Addr, txgen.Amt("OLT", big.NewInt(30)), fee, "c1", v[2].Stake))
+			case 11:
+				txs = append(txs, txgen.WithdrawReward(v[1].Key.Addr, v[1].Stake.Addr, txgen.Amt("OLT", big.NewInt(200)), fee, "c2", v[1].Stake))
+			case 12:
+				txs = append(txs, txgen.WithdrawReward(v[3].Key.Addr, v[3].Stake.Addr, txgen.Amt("OLT", big.NewInt(50)), fee, "c3", v[3].Stake),
+					txgen.WithdrawReward(v[3].Key.Addr, v[3].Stake.Addr, txgen.Amt("OLT", big.NewInt(1000000)), fee, "c4", v[3].Stake))
+			}
+			for _, x := range txs {
+				spec.Txs = append(spec.Txs, x.Bytes)
+			}
+			c.Steps = append(c.Steps, hist.BlockStep(spec, txs))
+		}
+		write(t, dir, "seed-carried-reward-state.json", c)
+	}
 }
 
 // TestMakeSuspects writes the scenario that confirms / refutes the suspicions about WITHDRAW_REWARD
